@@ -120,6 +120,9 @@ func (pool *CollectorPool) waitStop() {
 	}
 
 	pool.ctxCanceller()
+	// unblock Accept: the listen routine only notices the cancelled context after
+	// Accept has returned
+	pool.listener.Close()
 	pool.wg.Wait()
 	atomic.StoreInt32(&pool.stopped, 1)
 }
